@@ -4,7 +4,8 @@ import io
 import tokenize
 
 LETTERS = 'abcdefghijklmnopqrstuvwxyz'
-CHAR_POOL = list("abcXYZ019 _-+=*/.,:;!?#@%$&|<>()[]{}'\"\\\n\t\r\0\x7f\xe9☃\U0001f600") + ['  ', 'ab', "''", '""', "'''", '"""', '\\n', '#x', '@f()', '%m']
+RAW_CONTROL = '\x0b\x0c\x1c\x1d\x1e\x1f\x85\u2028\u2029'
+CHAR_POOL = list("abcXYZ019 _-+=*/.,:;!?#@%$&|<>()[]{}'\"\\\n\t\r\0\x7f\xe9☃\U0001f600\x0b\x0c\x1c\x1d\x1e\x1f\x85\u2028\u2029") + ['  ', 'ab', "''", '""', "'''", '"""', '\\n', '#x', '@f()', '%m']
 
 
 # ---------------------------------------------------------------------------
@@ -94,8 +95,9 @@ def depth_of(v):
 class Layout:
   """Layout randomiser.  wild=0 gives canonical repr-like text."""
 
-  def __init__(self, rng, wild=0.5, multiline=True):
+  def __init__(self, rng, wild=0.5, multiline=True, dup_keys=False):
     self.rng = rng
+    self.dup_keys = dup_keys      # only for oracles that evaluate the rendered TEXT (C02): the value differs from the one rendered
     self.wild = wild
     self.multiline = multiline
     self.used = set()
@@ -229,6 +231,10 @@ def _render_piece(L, s, is_bytes):
         L.used.add('literal-newline-in-triple')
       elif plain_ok and k < 7:
         out.append(c)
+      elif c in RAW_CONTROL and k < 6 and (o < 128 or not is_bytes):
+        # characters str.splitlines() treats as line boundaries but Python's source reader as ordinary characters
+        out.append(c)
+        L.used.add('raw-control-char')
       elif c in _ESC and k < 9 and c != '\0':
         out.append(_ESC[c])
         L.used.add('esc-named')
@@ -346,6 +352,13 @@ def _render(L, v, in_bracket=False):
     out = '{' + L.ws(True)
     n = len(v)
     for i, (k, x) in enumerate(v.items()):
+      if L.dup_keys and L.flip(0.12):
+        # the same key written twice (possibly spelled differently, or an equal key of another type): Python keeps the last value
+        dk = k
+        if type(k) is int and k in (0, 1) and L.flip(0.5):
+          dk = [False, True][k] if L.flip(0.5) else float(k)
+        out += render(L, dk, True) + L.ws(True) + ':' + L.ws(True) + render(L, L.rng.choice([0, None, 'dup', [1], x]), True) + L.ws(True) + ',' + L.ws(True)
+        L.used.add('dict-duplicate-key')
       out += render(L, k, True) + L.ws(True) + ':' + L.ws(True) + render(L, x, True) + L.ws(True)
       if i < n - 1:
         out += ',' + L.ws(True)
@@ -358,8 +371,8 @@ def _render(L, v, in_bracket=False):
   raise TypeError(t)
 
 
-def render_value(rng, v, wild=0.5, multiline=True):
-  L = Layout(rng, wild, multiline)
+def render_value(rng, v, wild=0.5, multiline=True, dup_keys=False):
+  L = Layout(rng, wild, multiline, dup_keys)
   text = render(L, v)
   if L.flip(0.15):
     # parenthesised value: still the value itself
